@@ -312,6 +312,26 @@ class Encoder(object):
             offset += chunk_length
             chunk_length = length - offset
 
+    def append_open_type(self, encoder):
+        """Append the bits of given encoder as an open type; padded to a
+        multiple of 8 bits and prefixed with a length determinant,
+        fragmented if 16K or longer.
+
+        """
+
+        encoder.align_always()
+        number_of_bytes = encoder.number_of_bytes()
+
+        if number_of_bytes < 16384:
+            self.append_length_determinant(number_of_bytes)
+            self += encoder
+        else:
+            data = encoder.as_bytearray()
+
+            for offset, length in self.append_length_determinant_chunks(
+                    number_of_bytes):
+                self.append_bytes(data[offset:offset + length])
+
     def append_normally_small_non_negative_whole_number(self, value):
         if value < 64:
             self.append_non_negative_binary_integer(value, 7)
@@ -477,6 +497,21 @@ class Decoder(object):
                 raise DecodeError(
                     'Bad length determinant fragmentation value 0x{:02x}.'.format(
                         value))
+
+    def read_open_type_fragments(self, length):
+        """Read the contents of an open type whose first length
+        determinant, already read, is given 16K fragment size. Returns
+        a decoder of the reassembled contents.
+
+        """
+
+        data = bytearray(self.read_bytes(length))
+
+        while length >= 16384:
+            length = self.read_length_determinant()
+            data += self.read_bytes(length)
+
+        return self.__class__(data)
 
     def read_length_determinant_chunks(self):
         while True:
@@ -792,9 +827,7 @@ class MembersType(Type):
         encoder.align()
 
         for addition_encoder in addition_encoders:
-            addition_encoder.align_always()
-            encoder.append_length_determinant(addition_encoder.number_of_bytes())
-            encoder += addition_encoder
+            encoder.append_open_type(addition_encoder)
 
         return True
 
@@ -871,6 +904,15 @@ class MembersType(Type):
             if presence_bits & (1 << (length - i - 1)):
                 # Open type decoding.
                 open_type_length = decoder.read_length_determinant()
+
+                if open_type_length >= 16384:
+                    # Fragmented contents are reassembled first.
+                    addition_decoder = decoder.read_open_type_fragments(
+                        open_type_length)
+                    open_type_length = 0
+                else:
+                    addition_decoder = decoder
+
                 offset = decoder.number_of_bits
 
                 if i < len(self.additions):
@@ -878,20 +920,22 @@ class MembersType(Type):
 
                     try:
                         if isinstance(addition, AdditionGroup):
-                            decoded.update(addition.decode(decoder))
+                            decoded.update(addition.decode(addition_decoder))
                         else:
-                            decoded[addition.name] = addition.decode(decoder)
+                            decoded[addition.name] = addition.decode(
+                                addition_decoder)
                     except ErrorWithLocation as e:
                         # Add member location
                         e.add_location(addition)
                         raise e
-                else:
-                    decoder.skip_bits(8 * open_type_length)
 
-                alignment_bits = (offset - decoder.number_of_bits) % 8
+                # Skip padding and anything else up to the end of the
+                # open type.
+                remaining_bits = (8 * open_type_length
+                                  - (offset - decoder.number_of_bits))
 
-                if alignment_bits != 0:
-                    decoder.skip_bits(8 - alignment_bits)
+                if remaining_bits > 0:
+                    decoder.skip_bits(remaining_bits)
 
         return decoded
 
@@ -1644,11 +1688,9 @@ class Choice(Type):
 
         # Embed encoded extension addition in an open type (add a
         # length field and multiple of 8 bits).
-        addition_encoder.align_always()
         encoder.append_normally_small_non_negative_whole_number(index)
         encoder.align()
-        encoder.append_length_determinant(addition_encoder.number_of_bytes())
-        encoder += addition_encoder
+        encoder.append_open_type(addition_encoder)
 
     def decode(self, decoder):
         if self.additions_index_to_member is not None:
@@ -1704,7 +1746,16 @@ class Choice(Type):
 
         # Open type decoding.
         decoder.align()
-        length = 8 * decoder.read_length_determinant()
+        length = decoder.read_length_determinant()
+
+        if length >= 16384:
+            # Fragmented contents are reassembled first.
+            addition_decoder = decoder.read_open_type_fragments(length)
+            length = 0
+        else:
+            addition_decoder = decoder
+            length *= 8
+
         offset = decoder.number_of_bits
 
         if addition is None:
@@ -1713,7 +1764,7 @@ class Choice(Type):
         else:
             name = addition.name
             try:
-                decoded = addition.decode(decoder)
+                decoded = addition.decode(addition_decoder)
             except ErrorWithLocation as e:
                 # Add member location
                 e.add_location(addition)
